@@ -771,6 +771,18 @@ fn c05(ctx: &Ctx, gi: usize, ri: usize, rep: &mut Report, note: &dyn Fn(&str)) {
     let g = &ctx.grammars[gi];
     let inputs = inputs_for(ctx, e, 0);
     let stacks = init_stacks(e);
+    // translated from the unoptimized AST: the reference machine runs on that expression
+    let graw = if e.options.contains("pest_optimizer = false") {
+        match Grammar::load_raw(e.src) {
+            Ok(x) => Some(x),
+            Err(err) => {
+                rep.model_error(format!("unoptimized grammar does not load: {}", err));
+                return;
+            }
+        }
+    } else {
+        None
+    };
     for init in &stacks {
         for input in &inputs {
             let case = Case {
@@ -817,12 +829,19 @@ fn c05(ctx: &Ctx, gi: usize, ri: usize, rep: &mut Report, note: &dyn Fn(&str)) {
             if !b.defined {
                 rep.cell("pest-undefined");
             }
-            let m_ok = b.m.ok.is_some();
-            let (m_end, m_stack) = match &b.m.ok {
+            let (ext, items) = base::ext_of(init);
+            let raw_run = graw.as_ref().map(|gr| m::run(gr, ri, input, &ext, &items, false, Atom::NonAtomic));
+            if let Some(r) = &raw_run {
+                if r.diverged || r.nonprogress {
+                    continue;
+                }
+            }
+            let m_res = raw_run.as_ref().map(|r| &r.ok).unwrap_or(&b.m.ok);
+            let m_ok = m_res.is_some();
+            let (m_end, m_stack) = match m_res {
                 Some((end, st, _)) => (*end, st.clone()),
                 None => (0, vec![]),
             };
-            let (ext, _) = base::ext_of(init);
             let mach = m::Machine::new(g, input, &ext);
             let m_texts: Vec<String> = m_stack.iter().map(|i| mach.text(i).to_string()).collect();
             rep.outcome(format!("{}:{}:{:?}", m_ok, m_end, m_texts));
